@@ -673,6 +673,54 @@ theorem completion_file_reachable (env : Env F C) (w : FlowId → C) (pre : List
   rw [hsplit]
   exact ⟨key.2.2.1, key.2.2.2⟩
 
+-- ------------------------------------------------------------------------------------------ reachable-state forms
+/-- `completion_appends_exactly_one_if_match` without the invariant hypothesis: for the state after ANY history
+    from the initial state the invariant is derived (`reachable_inv`). -/
+theorem completion_appends_exactly_one_reachable (env : Env F C) (w : FlowId → C) (pre : List (Ev F C)) (h : Hook)
+    (f : FlowId) (hx : (run env (init w) pre).1.exited = false) (hs : (run env (init w) pre).1.stream.isSome = true)
+    (hc : isCompletion env (run env (init w) pre).1 h f = true)
+    (hrot : ∀ spec, (run env (init w) pre).1.optFile = some spec → rotate env (run env (init w) pre).1 spec ≠ none) :
+    writes (step env (run env (init w) pre).1 (.hook h f)).2 =
+      (if passes env (run env (init w) pre).1.filt f ((run env (init w) pre).1.world f)
+       then [⟨f, (run env (init w) pre).1.world f⟩] else []) :=
+  (completion_appends_exactly_one_if_match env _ h f (reachable_inv env w pre) hx hs hc hrot).1
+
+/-- `no_record_before_completion_except_stop` for every event of every history from the initial state -/
+theorem no_record_before_completion_reachable (env : Env F C) (w : FlowId → C) (evs : List (Ev F C)) :
+    ∀ r ∈ writes (run env (init w) evs).2,
+      ∃ pre e post, evs = pre ++ e :: post ∧
+        ((∃ h, e = .hook h r.flow ∧ isCompletion env (run env (init w) pre).1 h r.flow = true) ∨ e = .done ∨
+         (∃ filt, e = .update (some none) filt)) := by
+  intro r hr
+  obtain ⟨pre, e, post, he, hm⟩ := mem_run_writes env evs _ r hr
+  exact ⟨pre, e, post, he, no_record_before_completion_except_stop env _ e (reachable_inv env w pre) r hm⟩
+
+/-- `lifecycle_written_exactly_once` after ANY history from the initial state (invariant derived) -/
+theorem lifecycle_written_exactly_once_reachable (env : Env F C) (w : FlowId → C) (pre : List (Ev F C))
+    (hs hc : Hook) (f : FlowId) (mid : List (Ev F C))
+    (hx : (run env (init w) pre).1.exited = false) (hopen : (run env (init w) pre).1.stream.isSome = true)
+    (hstart : hs.isStart = true) (hq : Quiet env f (step env (run env (init w) pre).1 (.hook hs f)).1 mid)
+    (hcomp : isCompletion env (run env (run env (init w) pre).1 (.hook hs f :: mid)).1 hc f = true)
+    (hrot : ∀ spec, (run env (run env (init w) pre).1 (.hook hs f :: mid)).1.optFile = some spec →
+              rotate env (run env (run env (init w) pre).1 (.hook hs f :: mid)).1 spec ≠ none) :
+    (writes (run env (run env (init w) pre).1 (.hook hs f :: mid ++ [.hook hc f])).2).filter (fun r => r.flow == f) =
+      (if passes env (run env (run env (init w) pre).1 (.hook hs f :: mid)).1.filt f
+            ((run env (run env (init w) pre).1 (.hook hs f :: mid)).1.world f)
+       then [⟨f, (run env (run env (init w) pre).1 (.hook hs f :: mid)).1.world f⟩] else []) :=
+  lifecycle_written_exactly_once env _ hs hc f mid (reachable_inv env w pre) hx hopen hstart hq hcomp hrot
+
+/-- `started_uncompleted_written_once_at_stop` (the `done` form) after ANY history from the initial state -/
+theorem started_uncompleted_written_once_reachable (env : Env F C) (w : FlowId → C) (pre : List (Ev F C))
+    (hs : Hook) (f : FlowId) (mid : List (Ev F C))
+    (hx : (run env (init w) pre).1.exited = false) (hopen : (run env (init w) pre).1.stream.isSome = true)
+    (hstart : hs.isStart = true) (hq : Quiet env f (step env (run env (init w) pre).1 (.hook hs f)).1 mid) :
+    (writes (step env (run env (run env (init w) pre).1 (.hook hs f :: mid)).1 .done).2).filter (fun r => r.flow == f) =
+      (if passes env (run env (run env (init w) pre).1 (.hook hs f :: mid)).1.filt f
+            ((run env (run env (init w) pre).1 (.hook hs f :: mid)).1.world f)
+       then [⟨f, (run env (run env (init w) pre).1 (.hook hs f :: mid)).1.world f⟩] else []) :=
+  (started_uncompleted_written_once_at_stop env _ hs f mid (reachable_inv env w pre) hx hopen hstart hq none
+    (fun h => by cases h)).1.1
+
 -- ------------------------------------------------------------------------------------------ non-vacuity
 section Examples
 private def envx : Env Nat Nat :=
